@@ -775,7 +775,7 @@ class PrintVisitor(base_visitor.Visitor):
     typ = node.base_type
     if len(node.args) == 1 and node.args[0] in self._paramspec_names:
       return f"{typ}[{node.args[0]}, {node.ret}]"
-    elif node.args and "Concatenate" in node.args[0]:
+    elif node.args and isinstance(self.old_node.args[0], pytd.Concatenate):
       args = ", ".join(node.args)
       return f"{typ}[{args}, {node.ret}]"
     else:
